@@ -1,5 +1,5 @@
 (* Props/C02.v — property C02: emitted JSON Schema and validator agree on JSON documents.  Statements only. *)
-From Beff Require Import Model.JsonSchema Model.Cases Proofs.C02 Proofs.C02Sound.
+From Beff Require Import Model.JsonSchema Model.Cases Proofs.C02 Proofs.C02Sound Proofs.C02Complete.
 
 (* ---- a type JSON Schema cannot express (Date, bigint, Map, Set, typed arrays at a position the flat printer
         visits) makes schema() throw instead of emitting a schema: for all trees, environments, states ---- *)
@@ -43,6 +43,31 @@ Example C02_fragment_nonvacuous :
     js_valid (fun _ => None) 20 j (JObj [("items", JArr [JObj [("tag", JStr "c")]]); ("byName", JObj []); ("any", JNull)]) = false.
 Proof. split; [vm_compute; reflexivity|]. eexists. eexists. split; [vm_compute; reflexivity|]. split; vm_compute; reflexivity. Qed.
 
+(* ---- the converse on a narrower fragment (Proofs/C02Complete.v, with Proofs/C02Mono.v: js_valid is monotone in its fuel on
+        the schemas beff prints in flat mode): properties are types that never accept undefined/null (`strict_ty`) or
+        optional such types; then every JSON document without null and with distinct keys (`json_ok`) that the validator
+        accepts with undeclared keys disallowed is valid against the flat schema. ---- *)
+Theorem C02_flat_schema_complete_on_fragment :
+  forall F env cf fs r j c' v d fz fv,
+    sfrag env fs [] r = true -> cfrag env fs [] r = true ->
+    schema env cf Flat fs [] None empty_ctx r = Ok (j, c') ->
+    val_to_json fz v = Some d -> json_ok d = true ->
+    validate F env fv true r v = Ok true ->
+    exists fj, js_valid (fun _ => None) fj j d = true.
+Proof. intros F env cf fs r j c' v d fz fv Hs Hc Hj. exact (schema_flat_complete F env cf fs [] None empty_ctx r j c' Hs Hc Hj v d fz fv). Qed.
+
+Definition c02_env3 : renv :=
+  [("Tag", RAnyOfConsts [CStr "a"; CStr "b"]);
+   ("Item", RObject [("tag", RRef "Tag"); ("n", ROptional (RTypeof TyNumber)); ("note", RAnyOf [RTypeof TyString; RTypeof TyNumber])] [])].
+Definition c02_rt3 : rt :=
+  RMeta "a page" (RObject [("items", RArray (RRef "Item")); ("byName", RObject [] [(RTypeof TyString, RRef "Item")])] []).
+Example C02_complete_fragment_nonvacuous :
+  sfrag c02_env3 20 [] c02_rt3 = true /\ cfrag c02_env3 20 [] c02_rt3 = true /\
+  json_ok (JObj [("items", JArr [JObj [("tag", JStr "a"); ("note", JStr "x")]]); ("byName", JObj [("k", JObj [("tag", JStr "b"); ("n", JNum (NInt 1)); ("note", JNum (NInt 2))])])]) = true /\
+  validate F0 c02_env3 20 true c02_rt3
+    (VObj [("items", VArr [VObj [("tag", VStr "a"); ("note", VStr "x")]]); ("byName", VObj [("k", VObj [("tag", VStr "b"); ("n", VNum (NInt 1)); ("note", VNum (NInt 2))])])]) = Ok true.
+Proof. repeat split; vm_compute; reflexivity. Qed.
+
 (* refuted by the unchanged code: tuples are printed with prefixItems / items:false but without minItems *)
 Theorem C02_refuted_tuple_without_minItems : ~ C02_sound_flat.
 Proof.
@@ -73,5 +98,6 @@ Proof. eexists. eexists. split; [vm_compute; reflexivity|]. repeat split; vm_com
 
 Print Assumptions C02_flat_unsupported_throws.
 Print Assumptions C02_flat_schema_sound_on_fragment.
+Print Assumptions C02_flat_schema_complete_on_fragment.
 Print Assumptions C02_refuted_tuple_without_minItems.
 Print Assumptions C02_refuted_never_is_malformed.
